@@ -246,9 +246,9 @@ Definition byte_len (k : list N) : nat := fold_right (fun c a => (utf8_len c + a
 Fixpoint insert_by_len {X} (key : X -> nat) (x : X) (l : list X) : list X :=
   match l with
   | [] => [x]
-  | y :: r => if Nat.ltb (key y) (key x) then x :: l else y :: insert_by_len key x r
+  | y :: r => if Nat.leb (key y) (key x) then x :: l else y :: insert_by_len key x r
   end.
-(* stable sort: fold from the right, an element goes before the first strictly shorter one *)
+(* stable sort: fold from the right, an element goes before the first one that is not longer *)
 Definition sort_ops {X} (key : X -> nat) (l : list X) : list X :=
   fold_right (insert_by_len key) [] l.
 
